@@ -54,8 +54,10 @@ CONSTANTS
   RunAppCatchesBase = {RunAppCatchesBase}
   MaxStartFaults = {msf}
   Entries = {entries}
-  Tree = "{tree}"
   KindsAllowed = {kinds}
+  Trees = {trees}
+  ExtraTreeEntries = {xentries}
+  ExtraTreeKinds = {xkinds}
 {invs}"""
 ALL_ENTRIES = ["Runner", "RunnerNoExplicitCleanup", "RunApp"]
 
@@ -70,14 +72,18 @@ BOTH_KINDS = ["exc", "base"]
 
 
 def a_cfg(name: str, devs: Dict[str, bool], msf: int, invs: List[str], spec: str = "Spec",
-          entries: Optional[List[str]] = None, tree: str = "one", kinds: Optional[List[str]] = None) -> str:
+          entries: Optional[List[str]] = None, kinds: Optional[List[str]] = None,
+          trees: Optional[List[str]] = None, xentries: Optional[List[str]] = None,
+          xkinds: Optional[List[str]] = None) -> str:
     d = mktemp("c20a")
     p = os.path.join(d, f"AppLifecycle_{name}.cfg")
     kw = {k: str(devs.get(k, True)).upper() for k in DEVS}
     with open(p, "w") as f:
         ents = "{" + ", ".join(f'"{e}"' for e in (entries or ALL_ENTRIES)) + "}"
-        kds = "{" + ", ".join(f'"{k}"' for k in (kinds or BOTH_KINDS)) + "}"
-        f.write(A_CFG.format(spec=spec, msf=msf, entries=ents, tree=tree, kinds=kds,
+        sset = lambda xs: "{" + ", ".join(f'"{x}"' for x in xs) + "}"      # noqa: E731
+        f.write(A_CFG.format(spec=spec, msf=msf, entries=ents, kinds=sset(kinds or BOTH_KINDS),
+                             trees=sset(trees or ["one"]), xentries=sset(xentries or entries or ALL_ENTRIES),
+                             xkinds=sset(xkinds or kinds or BOTH_KINDS),
                              invs="".join(f"INVARIANT {i}\n" for i in invs), **kw))
     return p
 
@@ -226,8 +232,9 @@ class LifeDriver:
         log.append({"ev": "end", "n": "", "k": ""})
         cfg = {"entry": init["entry"], "failStart": sorted(init["failStart"]), "failShut": sorted(init["failShut"]),
                "failClean": sorted(init["failClean"]), "siteFails": bool(init["siteFails"]),
-               "startKind": init.get("startKind", "exc"), "cleanKind": init.get("cleanKind", "exc")}
-        return {"cfg": cfg, "src": "tlc-init", "tree": init.get("tree", "one"), "kind": kind, "with_site": bool(with_site), "mode": mode, "events": log}
+               "startKind": init.get("startKind", "exc"), "cleanKind": init.get("cleanKind", "exc"),
+               "tree": init.get("tree", "one")}
+        return {"cfg": cfg, "src": "tlc-init", "kind": kind, "with_site": bool(with_site), "mode": mode, "events": log}
 
     async def _runner(self, app: Any, init: dict, log: List[dict], with_site: bool) -> None:
         from aiohttp import web
@@ -295,9 +302,8 @@ class LifeDriver:
             asyncio.set_event_loop(None)
 
 
-def a_enumerate_inits(ctx: Ctx, msf: int, tree: str = "one", entries: Optional[List[str]] = None,
-                      kinds: Optional[List[str]] = None) -> List[dict]:
-    cfg = a_cfg("inits", {k: False for k in DEVS}, msf, [], spec="SpecInitOnly", entries=entries, tree=tree, kinds=kinds)
+def a_enumerate_inits(ctx: Ctx, msf: int, **space: Any) -> List[dict]:
+    cfg = a_cfg("inits", {k: False for k in DEVS}, msf, [], spec="SpecInitOnly", **space)
     dot = os.path.join(mktemp("c20dot"), "inits.dot")
     res = run_tlc("AppLifecycle", cfg, workers=1, deadlock=False, dump_dot=dot, timeout=300)
     require_clean(res, "AppLifecycle initial states")
@@ -310,7 +316,7 @@ def a_enumerate_inits(ctx: Ctx, msf: int, tree: str = "one", entries: Optional[L
         out.append({"entry": str(st["entry"]), "failStart": sorted(map(str, st["failStart"])),
                     "failShut": sorted(map(str, st["failShut"])), "failClean": sorted(map(str, st["failClean"])),
                     "siteFails": bool(st["siteFails"]), "startKind": str(st["startKind"]),
-                    "cleanKind": str(st["cleanKind"]), "tree": tree})
+                    "cleanKind": str(st["cleanKind"]), "tree": str(st["tree"])})
     out.sort(key=lambda d: json.dumps(d, sort_keys=True))
     if len(out) != res.distinct or not out:
         raise MachineryError(f"initial-state dump incomplete: {len(out)} parsed, TLC found {res.distinct}")
@@ -329,7 +335,7 @@ def a_describe(t: dict) -> str:
     c = t["cfg"]
     ent = [e["n"] for e in t["events"] if e["ev"] == "enter_done"]
     ext = [e["n"] for e in t["events"] if e["ev"] == "exit_begin"]
-    parts = [f"entry={c['entry']}"] + ([f"tree={t['tree']}"] if t.get("tree", "one") != "one" else [])
+    parts = [f"entry={c['entry']}"] + ([f"tree={c['tree']}"] if c.get("tree", "one") != "one" else [])
     for k in ("failStart", "failShut", "failClean"):
         if c[k]:
             parts.append(f"{k}={','.join(c[k])}")
@@ -344,11 +350,8 @@ def a_describe(t: dict) -> str:
 
 
 def a_validate(traces: List[dict]) -> tuple:
-    # spec/AppLifecycleTrace.cfg with the constants of CODE_AS_IS and the application tree of these traces
-    tree = traces[0].get("tree", "one")
-    if any(t.get("tree", "one") != tree for t in traces):
-        raise MachineryError("a_validate: one application tree per batch")
-    cfg = a_cfg("trace", CODE_AS_IS, 1, [], spec="TSpec", tree=tree)
+    # spec/AppLifecycleTrace.cfg with the constants of CODE_AS_IS (identical unless a fix was declared)
+    cfg = a_cfg("trace", CODE_AS_IS, 1, [], spec="TSpec", trees=list(TREES))
     with open(cfg, "a") as f:
         f.write("POSTCONDITION PrintVerdicts\nCHECK_DEADLOCK FALSE\n")
     return validate_batch("AppLifecycleTrace", cfg, traces, timeout=900)
@@ -376,11 +379,8 @@ def a_judge(ctx: Ctx, traces: List[dict]) -> Dict[str, int]:
     counts: Dict[str, int] = {}
     groups: Dict[str, List[dict]] = {}
     notes: Dict[str, int] = {}
-    chunks: List[List[dict]] = []
-    for tree in sorted({t.get("tree", "one") for t in traces}):
-        sel = [t for t in traces if t.get("tree", "one") == tree]
-        chunks += [sel[k:k + 8000] for k in range(0, len(sel), 8000)]
-    for chunk in chunks:
+    for k in range(0, len(traces), 10000):
+        chunk = traces[k:k + 10000]
         verdicts, res = a_validate(chunk)
         ctx.add_trace_batch(len(chunk), res)
         for t, v in zip(chunk, verdicts):
@@ -416,46 +416,44 @@ def a_judge(ctx: Ctx, traces: List[dict]) -> Dict[str, int]:
 def run_part_a(ctx: Ctx) -> None:
     full = ["ExactlyOnceIffStarted", "NeverExitUnstarted", "ReverseOrder", "ErrorsSurface"]
     same = all(CODE_AS_IS.values())       # every deviation repaired: the code as it is equals the ideal design
-    # (tree, entries, kinds of failure, max failing start-up steps)
-    plan = ctx.pick([("one", ALL_ENTRIES, BOTH_KINDS, 1), ("two", ["Runner"], ["exc"], 1), ("nested", ["Runner"], ["exc"], 1)],
-                    [("one", ALL_ENTRIES, BOTH_KINDS, 2), ("two", ALL_ENTRIES, BOTH_KINDS, 1),
-                     ("nested", ALL_ENTRIES, BOTH_KINDS, 1)])
+    # the space of initial states: tree "one" with every entry and kind; the trees with two sibling sub-apps
+    # and with a sub-sub-app through the Runner entry with ordinary exceptions (quick) / everything (thorough)
+    msf = ctx.pick(1, 2)
+    space: Dict[str, Any] = dict(entries=ALL_ENTRIES, kinds=BOTH_KINDS, trees=list(TREES),
+                                 xentries=ctx.pick(["Runner"], ALL_ENTRIES), xkinds=ctx.pick(["exc"], BOTH_KINDS))
+    tag = (f"trees={'/'.join(space['trees'])}, start faults<={msf}, 3 entries x 2 kinds on tree one, "
+           f"{'/'.join(space['xentries'])} x {'/'.join(space['xkinds'])} on the others")
     drv = LifeDriver()
     traces: List[dict] = []
-    ninit = 0
     try:
-        for tree, entries, kds, msf in plan:
-            tag = f"tree={tree}, start faults<={msf}, entries={'/'.join(entries)}, kinds={'/'.join(kds)}"
-            # 1. the ideal design: every invariant, every fault mask x entry
-            if not same:
-                res = run_tlc("AppLifecycle", a_cfg("ideal", {}, msf, full, entries=entries, tree=tree, kinds=kds),
-                              workers=16, timeout=ctx.pick(300, 1800))
-                ok = ctx.expect_model_ok(f"AppLifecycle[ideal]({tag})", res)
-                ctx.log(f"A model[ideal] {tag}: {res.distinct} states ok={ok} {res.wall_s:.0f}s")
-            # 2. the code as it is: everything that goes wrong is one of the named deviations
-            invs = full if same else ["AsCodedExplained", "NeverExitUnstarted", "ReverseOrder", "ErrorsSurface"]
-            label = "ideal = as-coded" if same else "as-coded"
-            res = run_tlc("AppLifecycle", a_cfg("ascoded", CODE_AS_IS, msf, invs, entries=entries, tree=tree, kinds=kds),
-                          workers=16, timeout=ctx.pick(300, 1800), coverage=True)
-            ok = ctx.expect_model_ok(f"AppLifecycle[{label}]({tag})", res)
-            ctx.log(f"A model[{label}] {tag}: {res.distinct} states ok={ok} {res.wall_s:.0f}s")
-            for act, (_d, tot) in sorted(res.coverage.items()):
-                if act in ("EntryPoint", "Propagate", "SignalSend", "CtxStartup", "CtxCleanup", "RunnerSetup",
-                           "RunnerCleanup"):
-                    ctx.action_cover["A:" + act] = ctx.action_cover.get("A:" + act, 0) + tot
-                    if tot == 0:
-                        ctx.notes.append(f"vacuity: action {act} never taken in AppLifecycle[{label}]({tag})")
-            # 3. spec -> code -> spec: every initial state is replayed into the real application;
-            #    a named deviation that shows up is also exhibited by TLC in the model (a_model_counterexample)
-            inits = a_enumerate_inits(ctx, msf, tree, entries, kds)
-            ninit += len(inits)
-            for i, init in enumerate(inits):
-                kinds = [i % 3] if ctx.quick else [0, 1, 2]
-                modes = ["cancel"] if init["startKind"] == "exc" else \
-                    ([BASE_MODES[(i // 3) % 3]] if ctx.quick else BASE_MODES)
-                for kind in kinds:
-                    for mode in modes:
-                        traces.append(drv.run(init, kind, with_site=(i + kind) % 2 == 0, mode=mode))
+        # 1. the ideal design: every invariant, every fault mask x entry x tree
+        if not same:
+            res = run_tlc("AppLifecycle", a_cfg("ideal", {}, msf, full, **space), workers=16, timeout=ctx.pick(400, 3000))
+            ok = ctx.expect_model_ok(f"AppLifecycle[ideal]({tag})", res)
+            ctx.log(f"A model[ideal] {tag}: {res.distinct} states ok={ok} {res.wall_s:.0f}s")
+        # 2. the code as it is: everything that goes wrong is one of the named deviations
+        invs = full if same else ["AsCodedExplained", "NeverExitUnstarted", "ReverseOrder", "ErrorsSurface"]
+        label = "ideal = as-coded" if same else "as-coded"
+        res = run_tlc("AppLifecycle", a_cfg("ascoded", CODE_AS_IS, msf, invs, **space), workers=16,
+                      timeout=ctx.pick(400, 3000), coverage=True)
+        ok = ctx.expect_model_ok(f"AppLifecycle[{label}]({tag})", res)
+        ctx.log(f"A model[{label}] {tag}: {res.distinct} states ok={ok} {res.wall_s:.0f}s")
+        for act, (_d, tot) in sorted(res.coverage.items()):
+            if act in ("EntryPoint", "Propagate", "SignalSend", "CtxStartup", "CtxCleanup", "RunnerSetup", "RunnerCleanup"):
+                ctx.action_cover["A:" + act] = tot
+                if tot == 0:
+                    ctx.notes.append(f"vacuity: action {act} never taken in AppLifecycle[{label}]")
+        # 3. spec -> code -> spec: every initial state is replayed into the real application;
+        #    a named deviation that shows up is also exhibited by TLC in the model (a_model_counterexample)
+        inits = a_enumerate_inits(ctx, msf, **space)
+        ninit = len(inits)
+        for i, init in enumerate(inits):
+            kinds = [i % 3] if ctx.quick else [0, 1, 2]
+            modes = ["cancel"] if init["startKind"] == "exc" else \
+                ([BASE_MODES[(i // 3) % 3]] if ctx.quick else BASE_MODES)
+            for kind in kinds:
+                for mode in modes:
+                    traces.append(drv.run(init, kind, with_site=(i + kind) % 2 == 0, mode=mode))
     finally:
         drv.close()
     ctx.log(f"A replayed {ninit} initial states -> {len(traces)} executions of the real Application")
@@ -524,20 +522,27 @@ class ShutExec:
         async def h_sleep(request: Any) -> Any:
             c, d = request.query["c"], request.query["d"]
             ex.ev("handler_start", c)
+            end = None if d == "inf" else ex.loop.time() + float(d)
             try:
-                if d == "inf":
+                if end is None:
                     await asyncio.Event().wait()
                 else:
                     await asyncio.sleep(float(d))
             except asyncio.CancelledError:
                 ex.ev("handler_cancel", c)
-                if request.query.get("stub") == "1":
-                    while not ex.release:          # swallows cancellation: never ends on its own
-                        try:
+                if request.query.get("stub") != "1":
+                    raise
+                # swallows cancellation: goes on until its own deadline (never ends if it has none)
+                while not ex.release and (end is None or ex.loop.time() < end):
+                    try:
+                        if end is None:
                             await asyncio.Event().wait()
-                        except asyncio.CancelledError:
-                            pass
-                raise
+                        else:
+                            await asyncio.sleep(max(0.0, end - ex.loop.time()))
+                    except asyncio.CancelledError:
+                        pass
+                if ex.release:
+                    raise
             ex.ev("handler_end", c)
             return web.Response(text="ok")
 
@@ -880,7 +885,7 @@ def b_random_scenario(rng: Any) -> dict:
                              "startAt": q(0, t0)}
         if kind in ("sleep", "stream"):
             s["rem"] = None if rng.random() < 0.25 else q(0, 3 * T + 2)
-            s["stub"] = kind == "sleep" and s["rem"] is None and rng.random() < 0.5
+            s["stub"] = kind == "sleep" and rng.random() < (0.5 if s["rem"] is None else 0.25)
             s["pipeline"] = rng.random() < 0.15
         if (kind in ("idle", "partial") and rng.random() < 0.7) or (kind == "sleep" and rng.random() < 0.4):
             s["dAt"] = q(0, 2 * T + 2)
@@ -890,7 +895,11 @@ def b_random_scenario(rng: Any) -> dict:
         if rng.random() < 0.12:
             s["dropAt"] = q(0, 2 * T + 1)
         conns[f"c{i + 1}"] = s
-    return {"T": T, "D": rng.choice([0, 0, 0.5, 1, 2, 3]), "appCloses": rng.random() < 0.6, "WsT": rng.choice([0.5, 1]),
+    D = rng.choice([0, 0, 0.5, 1, 2, 3])
+    for s in conns.values():      # cleanup() racing handler completion: the handler returns exactly when cleanup()
+        if s["kind"] in ("sleep", "stream") and s["rem"] is not None and rng.random() < 0.3:   # is called / at t1+T / t1+2T
+            s["rem"] = (t0 - s["startAt"]) + rng.choice([0, D, D + T, D + 2 * T])
+    return {"T": T, "D": D, "appCloses": rng.random() < 0.6, "WsT": rng.choice([0.5, 1]),
             "tail": rng.choice([0, 0, 1]), "t0": t0, "conns": conns, "src": "random"}
 
 
@@ -1218,8 +1227,7 @@ def replay(ctx: Ctx, path: str) -> int:
     if d.get("part") == "A":
         drv = LifeDriver()
         try:
-            t = drv.run(dict(tr["cfg"], tree=tr.get("tree", "one")), int(tr.get("kind", 0)),
-                        bool(tr.get("with_site", True)), tr.get("mode", "cancel"))
+            t = drv.run(tr["cfg"], int(tr.get("kind", 0)), bool(tr.get("with_site", True)), tr.get("mode", "cancel"))
         finally:
             drv.close()
         vs, _ = a_validate([t])
